@@ -4,6 +4,8 @@ import (
 	"encoding/json"
 	"fmt"
 	"os"
+
+	"github.com/kercylan98/vivid/verifharness/ctl"
 	"runtime"
 	"time"
 )
@@ -28,6 +30,29 @@ func init() {
 		for _, l := range run.Leak {
 			fmt.Fprintln(os.Stdout, l)
 		}
+		return 0
+	}
+}
+
+func init() {
+	subcommands["debug-fut"] = func(args []string) int {
+		sc := futScenario{Completers: []string{"r1", "r2", "timer"}, Pipers: []string{"p1", "p2"}, Waiters: []string{"w1"}, TimeoutUS: 1000}
+		var sched []futStep
+		seed := int64(1)
+		if len(args) > 0 {
+			_ = json.Unmarshal([]byte(args[0]), &sc)
+		}
+		if len(args) > 1 {
+			fmt.Sscan(args[1], &seed)
+		}
+		futDebug = true
+		ctl.Debug = os.Getenv("CTL_DEBUG") != ""
+		run := runFutureScenario(&sc, sched, seed)
+		for _, e := range run.Events {
+			b, _ := json.Marshal(e)
+			fmt.Println(string(b))
+		}
+		fmt.Println("steps", run.Steps, "drift", run.Drift, "stuck", run.Stuck)
 		return 0
 	}
 }
